@@ -10,13 +10,17 @@ L2 (correspondence)
     (name, kind, bounds, prior, choices, transform, categorical prior, who samples) against the model, field by field;
   * samplers: the real `Dimension.rvs` driven by a scripted random stream (the uniform numbers / integers the
     generator hands out are chosen by the harness) against `sampleDim` on the same draws;
-  * ConfigSpace path / RandomSearch: the point built from a sampled configuration against `pointOfConf`.
+  * ConfigSpace path / RandomSearch: the point built from a sampled configuration against `pointOfConf`;
+  * the stage between the sampler and the user (Model/Proposal.lean): histories of initial-phase asks on one Optimizer / CBO
+    object, the rows handed out against `askMany` on the candidate lists the real `Space.rvs` drew (drawing order).
 L3 (oracle on the real code)
   * conversion preserves names, order, bounds, log flags, choices (and weights);
   * with real seeded generators, on every sampling path (Space.rvs flat, Optimizer.ask with the GP-normalized space,
     Space.rvs through ConfigSpace, RandomSearch.ask): every value a member, every category / every value of a small
     integer range / both ends of every numeric range occur, chi-square / Kolmogorov-Smirnov statistics against the
-    law of the path with thresholds at p < 1e-9 (fixed seeds: deterministic).
+    law of the path with thresholds at p < 1e-9 (fixed seeds: deterministic);
+  * across seeds / optimizer objects, on small all-discrete problems (duplicate filter active): the law of the first, second,
+    third configuration handed out by Optimizer.ask / CBO.ask / RandomSearch.ask, jointly and per hyperparameter.
 """
 import json
 import math
@@ -924,7 +928,7 @@ def law_problem(rng, weighted=True):
     return p, descs
 
 
-CS_PATHS = ("Space.rvs:configspace", "RandomSearch.ask", "Optimizer.ask:RF:configspace")
+CS_PATHS = ("Space.rvs:configspace", "RandomSearch.ask", "Optimizer.ask:RF:configspace", "CBO.ask:configspace")
 
 
 def judge_rows(ck, path, problem, descs, rows, base_case, child=None):
@@ -1037,10 +1041,34 @@ def law_case(ck, d, seed, n):
                             {"what": "Space.rvs (ConfigSpace path) vs pointOfConf of the configuration ConfigSpace sampled",
                              "impl": [tag(v) for v in row], "model": rep["res"]})
             ck.count("point:" + ("inactive-filled" if len(cd) < len(dims_w) else "all-active"))
-    # (4) RandomSearch.ask
+    # (4) RandomSearch.ask, (5) CBO.ask (the rows of Optimizer.ask turned into dicts by name)
     tmp = tempfile.mkdtemp(prefix="c10_")
     try:
-        from deephyper.hpo import RandomSearch
+        from deephyper.hpo import CBO, RandomSearch
+
+        cond = seed % 2 == 1
+        pb, ds, ch = (problem2, descs2, child) if cond else (problem, descs, None)
+        sm = random.Random(seed + 1).choice(["RF", "ET", "GP", "DUMMY"])
+
+        n_cbo = max(2000, n // 3)  # the stage under test here is the conversion to dicts by name: a third of the sample is enough
+
+        def cbo_ask():
+            search = CBO(pb, _zero, random_state=seed, log_dir=os.path.join(tmp, "cbo"), surrogate_model=sm, n_points=n_cbo, verbose=0)
+            search._setup_optimizer()  # what CBO.search() does first
+            return search.ask(n_cbo)
+
+        out = Out(cbo_ask)
+        if out.exc is not None:
+            ck.fail(f"C10|raises:{err_kind(out.exc)}|CBO.ask|declared-problem", "CBO.ask raises in the initial phase on an accepted problem",
+                    {**base_case, "surrogate": sm}, repr(out.exc)[:300])
+        else:
+            confs = out.val
+            names_all = list(pb.hyperparameter_names)
+            ck.count("law:CBO.ask:surrogate=" + sm)
+            if any(sorted(c.keys()) != sorted(names_all) for c in confs[:50]):
+                ck.fail("C10|names|CBO.ask|keys", "a configuration does not have exactly the problem's hyperparameters", base_case, {"keys": list(confs[0].keys())})
+            elif len(confs) >= n_cbo // 2:
+                judge_rows(ck, "CBO.ask:configspace" if cond else "CBO.ask", pb, ds, confs, {**base_case, "surrogate": sm}, child=ch)
 
         out = Out(lambda: RandomSearch(problem2, _zero, random_state=seed, log_dir=tmp))
         if out.exc is not None:
@@ -1096,8 +1124,12 @@ def small_calls_case(ck, seed, calls):
     for path, problem, descs, ch, sm in (("Optimizer.ask:RF", flat, fdescs, None, "RF"), ("Optimizer.ask:GP", flat, fdescs, None, "GP"),
                                          ("Optimizer.ask:RF:configspace", cond, cdescs, child, "RF")):
         sp = convert_to_skopt_space(problem.space, surrogate_model=sm)
+        # the duplicate filter as a user has it (on by default) for most objects, explicitly off for the others: with a real
+        # hyperparameter no candidate is a duplicate, so what is handed out must follow the prior either way
+        filt = rng.random() < 0.7
+        ck.count("small-calls:%s:filter_duplicated=%s" % (path, "default" if filt else "False"))
         out = Out(lambda: Optimizer(sp, base_estimator=sm, n_initial_points=10 ** 9, random_state=seed,
-                                    acq_optimizer_kwargs={"n_points": 16, "filter_duplicated": False}))
+                                    acq_optimizer_kwargs={"n_points": 16, **({} if filt else {"filter_duplicated": False})}))
         if out.exc is not None:
             ck.count("small-calls:Optimizer-unavailable:" + type(out.exc).__name__)
             continue
@@ -1106,6 +1138,33 @@ def small_calls_case(ck, seed, calls):
         for k in range(calls):
             batches.append([opt.ask()] if k % 3 else opt.ask(n_points=4))
         aggregate(path, problem, descs, batches, ch)
+    # CBO.ask(1) / ask(4) repeated on one search object (every option at its default but the number of candidates)
+    tmp = tempfile.mkdtemp(prefix="c10_")
+    try:
+        from deephyper.hpo import CBO
+
+        use_cond = rng.random() < 0.5
+        pb, ds, ch = (cond, cdescs, child) if use_cond else (flat, fdescs, None)
+        sm = rng.choice(["RF", "ET", "GP", "DUMMY"])
+
+        def build():
+            search = CBO(pb, _zero, random_state=seed, log_dir=tmp, surrogate_model=sm, n_points=16, n_initial_points=10 ** 6, verbose=0)
+            search._setup_optimizer()  # what CBO.search() does first
+            return search
+
+        out = Out(build)
+        if out.exc is not None:
+            ck.count("small-calls:CBO-unavailable:" + type(out.exc).__name__)
+        else:
+            o2 = Out(lambda: [out.val.ask(1 if k % 3 else 4) for k in range(max(100, calls // 2))])
+            if o2.exc is not None:
+                ck.fail(f"C10|raises:{err_kind(o2.exc)}|CBO.ask|small-calls", "CBO.ask raises in the initial phase", {**base_case, "surrogate": sm}, repr(o2.exc)[:300])
+            elif any(not isinstance(c, dict) or sorted(c) != sorted(pb.hyperparameter_names) for b in o2.val for c in b):
+                ck.fail("C10|names|CBO.ask|keys", "a configuration does not have exactly the problem's hyperparameters", {**base_case, "surrogate": sm})
+            else:
+                aggregate("CBO.ask:configspace" if use_cond else "CBO.ask", pb, ds, o2.val, ch)
+    finally:
+        shutil.rmtree(tmp, ignore_errors=True)
     # RandomSearch.ask
     tmp = tempfile.mkdtemp(prefix="c10_")
     try:
@@ -1117,6 +1176,484 @@ def small_calls_case(ck, seed, calls):
             aggregate("RandomSearch.ask", cond, cdescs, batches, child)
     finally:
         shutil.rmtree(tmp, ignore_errors=True)
+
+
+# --------------------------------------------------------------------------- the stage between the sampler and the user
+
+
+class RvsSpy:
+    """stands in for `Space.rvs` (class attribute) while one case runs and records every candidate list that is drawn,
+    in order; observation only, the real method does the work"""
+
+    def __init__(self):
+        self.draws = []
+
+    def __enter__(self):
+        from deephyper.skopt.space import space as space_mod
+
+        spy = self
+        self._cls = space_mod.Space
+        self._orig = self._cls.rvs
+
+        def rvs(self_, *a, **kw):
+            out = spy._orig(self_, *a, **kw)
+            spy.draws.append([list(r) for r in out])
+            return out
+
+        self._cls.rvs = rvs
+        return self
+
+    def __exit__(self, *a):
+        self._cls.rvs = self._orig
+
+    def take(self):
+        d, self.draws = self.draws, []
+        return d
+
+
+def discrete_problem(seed, conditional):
+    """a problem made ONLY of discrete hyperparameters (small integer ranges uniform / log-uniform, categories of every
+    kind, weighted categories, ordinals, a constant) with 4..24 configurations, randomly named; `conditional` adds an
+    integer child that is active for one value of a parent.  Returns (make_problem, hps, child) where hps is the list of
+    (name, kind signature, values, flat-path probabilities, ConfigSpace-path probabilities); everything derived from `seed`."""
+    import random
+
+    rng = random.Random(seed)
+    for _ in range(200):
+        kinds = rng.sample(["iu", "iu", "il", "cat", "bool", "ord", "catw", "mixed", "const"], rng.choice([2, 2, 3]))
+        names = rng.sample(_NAMES, len(kinds) + 1)
+        hps = []
+        for nm, k in zip(names, kinds):
+            if k == "iu":
+                lo = rng.choice([0, 1, -2, 5])
+                vals = list(range(lo, lo + rng.choice([2, 3, 4, 5])))
+                hps.append((nm, "int/uniform", (vals[0], vals[-1]), vals, None, None))
+            elif k == "il":
+                lo = rng.choice([1, 2])
+                vals = list(range(lo, lo + rng.choice([3, 4, 5])))
+                hps.append((nm, "int/log-uniform", (vals[0], vals[-1], "log-uniform"), vals, "flat", "cs"))
+            elif k == "cat":
+                vals = rng.sample(_WORDS, rng.choice([2, 3, 4]))
+                hps.append((nm, "cat", vals, vals, None, None))
+            elif k == "bool":
+                vals = rng.choice([[True, False], [False, True]])
+                hps.append((nm, "cat[bool]", vals, vals, None, None))
+            elif k == "ord":
+                vals = rng.choice([[1, 2, 4], [8, 4, 2, 1], [3, 5], [0.1, 0.5, 2.5]])
+                hps.append((nm, "ordinal[%s]" % type(vals[0]).__name__, vals, vals, None, None))
+            elif k == "catw":
+                vals = rng.sample(_WORDS, 3)
+                w = rng.choice([[0.6, 0.3, 0.1], [0.2, 0.3, 0.5], [1, 1, 2]])
+                hps.append((nm, "cat,weights", ("weights", vals, w), vals, [x / sum(w) for x in w], [x / sum(w) for x in w]))
+            elif k == "mixed":
+                vals = rng.choice([["relu", 1, 2.5], ["sqrt", "log2", 0.5, 3], ["a", True]])
+                hps.append((nm, "cat[mixed]", vals, vals, None, None))
+            else:
+                hps.append((nm, "constant", rng.choice([7, "fixed", 2.5]), None, None, None))
+        hps = [(nm, sig, decl, vals if vals is not None else [decl], pf, pc) for nm, sig, decl, vals, pf, pc in hps]
+        child = None
+        if conditional:
+            parents = [h for h in hps if len(h[3]) >= 2 and h[1] != "int/log-uniform"]
+            if not parents:
+                continue
+            par = rng.choice(parents)
+            lo = rng.choice([2, 3])
+            cvals = list(range(lo, lo + rng.choice([2, 3])))
+            child = (names[-1], par[0], rng.choice(par[3]), cvals)
+        m = 1
+        for h in hps:
+            m *= len(h[3])
+        if child:
+            m = m // len([h for h in hps if h[0] == child[1]][0][3]) * (len([h for h in hps if h[0] == child[1]][0][3]) - 1 + len(child[3]))
+        if 5 <= m <= 24:
+            break
+    else:
+        raise common.HarnessError("discrete_problem: no problem of 5..24 configurations")
+
+    def make():
+        import ConfigSpace as cs
+        import ConfigSpace.hyperparameters as csh
+        from deephyper.hpo import HpProblem
+
+        p = HpProblem()
+        for nm, sig, decl, vals, pf, pc in hps:
+            if isinstance(decl, tuple) and decl and decl[0] == "weights":
+                p.add_hyperparameter(csh.CategoricalHyperparameter(nm, list(decl[1]), weights=list(decl[2])))
+            else:
+                p.add_hyperparameter(decl if not isinstance(decl, list) else list(decl), nm)
+        if child:
+            c = p.add_hyperparameter((child[3][0], child[3][-1]), child[0])
+            p.add_condition(cs.EqualsCondition(c, p.space[child[1]], child[2]))
+        return p
+
+    return make, hps, child
+
+
+def point_law(problem, hps, child, on_cs):
+    """the law of ONE configuration drawn from the declared prior, over the points a user can receive (in the order of
+    problem.hyperparameter_names; an inactive child has its own lower bound): list of (row, probability)"""
+    import itertools
+
+    names = list(problem.hyperparameter_names)
+    cols = {}
+    for nm, sig, decl, vals, pf, pc in hps:
+        pr = pc if on_cs else pf
+        if pr in ("flat", "cs"):
+            pr = (law_int_log_configspace if pr == "cs" else law_int_log_flat)(vals[0], vals[-1])
+        cols[nm] = list(zip(vals, pr if pr is not None else [1.0 / len(vals)] * len(vals)))
+    if child:
+        cols[child[0]] = [(v, 1.0 / len(child[3])) for v in child[3]]
+    law = {}
+    for combo in itertools.product(*[cols[nm] for nm in names]):
+        row = [v for v, _ in combo]
+        pr = 1.0
+        for _, q in combo:
+            pr *= q
+        if child and tag(row[names.index(child[1])]) != tag(child[2]):
+            row[names.index(child[0])] = child[3][0]
+        key = json.dumps([tag(v) for v in row], sort_keys=True)
+        if key in law:
+            law[key] = (law[key][0], law[key][1] + pr)
+        else:
+            law[key] = (row, pr)
+    return list(law.values())
+
+
+def successive_laws(p, K, n_points, geom=None):
+    """law of the k-th configuration handed out (k < K) when each one is the first candidate, in drawing order, that was
+    not handed out before (C10_handout_drawing_order) and candidates are independent draws from p: by
+    C10_first_proposal_law the conditional law given the history H is p(v) * geom(q_H, 1, n_points), q_H = p(H)."""
+    m = len(p)
+    g = geom or (lambda q: (1.0 - q ** n_points) / (1.0 - q))
+    states = {frozenset(): 1.0}
+    laws = []
+    for _ in range(K):
+        law = [0.0] * m
+        nxt = {}
+        for hist, ph in states.items():
+            f = ph * g(sum(p[i] for i in hist))
+            for v in range(m):
+                if v not in hist:
+                    law[v] += f * p[v]
+                    h2 = hist | {v}
+                    nxt[h2] = nxt.get(h2, 0.0) + f * p[v]
+        laws.append(law)
+        states = nxt
+    return laws
+
+
+def proposal_law_case(ck, d, seed, n_seeds, conditional, apis=("Optimizer.ask", "CBO.ask", "RandomSearch.ask"), pool=None):
+    """ACROSS SEEDS / optimizer objects: the law of the first, second, third configuration a user receives from
+    Optimizer.ask / CBO.ask (initial phase, duplicate filter on as by default) and RandomSearch.ask on a small
+    all-discrete problem whose configurations are all among the n_points candidates - per hyperparameter (every value
+    occurs, chi-square against the law) and jointly."""
+    import random
+
+    rng = random.Random(seed)
+    make, hps, child = discrete_problem(seed, conditional)
+    K = 3
+    shape = rng.choice([[None, None, None], [None, 2], [3], [2, None], [1, None, 1]])
+    sm = rng.choice(["DUMMY", "RF", "ET", "GP"])
+    n_points = rng.choice([256, 256, 512])
+    base = rng.randrange(0, 2 ** 20)
+    base_case = {"kind": "proposal-law", "seed": seed, "n_seeds": n_seeds, "conditional": conditional, "surrogate": sm, "n_points": n_points,
+                 "asks": shape, "hyperparameters": [{"name": h[0], "kind": h[1], "declaration": repr(h[2])} for h in hps],
+                 "child": None if child is None else {"name": child[0], "parent": child[1], "active_when": repr(child[2]), "range": [child[3][0], child[3][-1]]}}
+    o = Out(lambda: (lambda pb: (pb, list(pb.hyperparameter_names)))(make()))
+    want = sorted([h[0] for h in hps] + ([child[0]] if child else []))
+    if o.exc is not None or sorted(o.val[1]) != want:
+        # the declarations are accepted ones (the structure cases judge that in detail): nothing to sample from here
+        ck.fail("C10|declared-problem|HpProblem|all-discrete", "an all-discrete problem of accepted declarations cannot be built, or does not have the declared names",
+                base_case, repr(o.exc or o.val[1])[:300])
+        return
+    problem0, names = o.val
+
+    for api in apis:
+        on_cs = conditional or api == "RandomSearch.ask"
+        law1 = point_law(problem0, hps, child, on_cs)
+        p = [q for _, q in law1]
+        top = sorted(p, reverse=True)[:K + 1]
+        if api != "RandomSearch.ask" and sum(top) > 0.95:
+            ck.count("proposal-law:skipped-concentrated")
+            continue
+        if api == "RandomSearch.ask":
+            laws = [p] * K  # no duplicate filter: independent draws
+        else:
+            # the factor of the proved law, from the Lean definition for the histories of length <= 1, cross-checked
+            # (exact rationals of small denominator next to the masses of the single configurations)
+            qs = sorted({Fraction(0)} | {Fraction(q).limit_denominator(500) for q in p})
+            rep = d.ask({"op": "geom", "qs": ["%d/%d" % (q.numerator, q.denominator) for q in qs], "T": "1/1", "n": n_points})
+            for q, x in zip(qs, rep["g"]):
+                if abs(float(unrat(x)) - (1.0 - float(q) ** n_points) / (1.0 - float(q))) > 1e-9:
+                    raise common.HarnessError("geom (Lean) and its closed form differ")
+            ck.count("lean-geom")
+            laws = successive_laws(p, K, n_points)
+        path = api + ":across-seeds"
+        case = {**base_case, "path": path}
+        per_pos = [[] for _ in range(K)]
+        err = None
+        seeds = [base + i for i in range(n_seeds)]
+        chunks = [seeds[i:i + 40] for i in range(0, n_seeds, 40)]
+        jobs = [(seed, conditional, api, sm, n_points, shape, ch, K) for ch in chunks]
+        try:
+            results = list(pool.map(_proposal_rows, jobs)) if pool is not None else [_proposal_rows(j) for j in jobs]
+        except Exception as e:  # noqa: BLE001 - a broken pool / unpicklable result is the machinery's trouble, not a finding
+            raise common.HarnessError("proposal-law workers: %r" % e)
+        short = None
+        for res in results:
+            for s_, status, val in res:
+                if status == "err" and err is None:
+                    err = val
+                elif status == "short" and short is None:
+                    short = (s_, val)
+                elif status == "ok":
+                    for k in range(K):
+                        per_pos[k].append(val[k])
+        if short is not None and err is None:
+            ck.fail(f"C10|too-few|{path}|all-discrete", "fewer configurations than asked for although the space is not exhausted",
+                    {**case, "generator_seed": short[0]}, {"got": repr(short[1])[:300]})
+            continue
+        if err is not None:
+            if err[0] == "KeyError" and api != "Optimizer.ask":
+                ck.fail(f"C10|names|{api}|keys", "a configuration does not have exactly the problem's hyperparameters", case, err[1])
+            else:
+                ck.fail(f"C10|raises:{err[0]}|{path}|all-discrete", f"{api} raises in the initial phase on an accepted all-discrete problem", case, err[1])
+            continue
+        if len(per_pos[K - 1]) < n_seeds:
+            continue
+        ck.count("proposal-law:" + path + (":configspace" if conditional else ":flat"))
+        ck.case(case)
+        check_points_by_name(ck, case, problem0, [r for k in range(K) for r in per_pos[k][:60]], "Space.rvs:configspace" if on_cs else "Space.rvs:flat")
+        for k in range(K):
+            rows = per_pos[k]
+            pos_case = {**case, "position": k + 1}
+            law = laws[k]
+            tot = sum(law)
+            law = [x / tot for x in law]
+            # jointly: every configuration handed out is a point of the support ...
+            observed = [json.dumps([loose_tag(v, on_cs) for v in r], sort_keys=True) for r in rows]
+            loose_keys = [json.dumps([loose_tag(v, on_cs) for v in row], sort_keys=True) for row, _ in law1]
+            outside = [r for r, o_ in zip(rows, observed) if o_ not in set(loose_keys)]
+            if outside:
+                ck.fail(f"C10|support|{path}|configuration", "a configuration handed out is not a point of the declared support "
+                        "(an inactive hyperparameter has its own lower bound)", pos_case, {"configuration": repr(outside[0])[:300]})
+                break
+            # ... and when every configuration is expected often enough, the joint frequencies follow the law
+            if min(law) * len(rows) >= 25:
+                judge_column(ck, path, {"kind": "cat", "choices": loose_keys, "probs": law, "sig": "configuration"}, observed, pos_case)
+            # per hyperparameter: every value occurs, frequencies follow the marginal of the law
+            for j, nm in enumerate(names):
+                vals, marg, seen = [], [], {}
+                for (row, _), q in zip(law1, law):
+                    t = json.dumps(tag(row[j]), sort_keys=True)
+                    if t in seen:
+                        marg[seen[t]] += q
+                    else:
+                        seen[t] = len(vals)
+                        vals.append(row[j])
+                        marg.append(q)
+                sig = next((h[1] for h in hps if h[0] == nm), "int/uniform,conditional")
+                judge_column(ck, path, {"kind": "cat", "choices": vals, "probs": marg, "sig": sig, "loose_numeric": on_cs},
+                             [r[j] for r in rows], {**pos_case, "hyperparameter": nm})
+
+
+def _worker_init(repo):
+    """a spawned worker (a fresh interpreter: nothing of the parent's threads or locks): the real code of the tree under test"""
+    import warnings
+
+    os.environ["VERIF_REPO"] = repo
+    for k in ("OMP_NUM_THREADS", "OPENBLAS_NUM_THREADS", "MKL_NUM_THREADS"):
+        os.environ[k] = "1"
+    common.use_repo_sources()
+    warnings.filterwarnings("ignore")
+    import deephyper.hpo  # noqa: F401
+    import deephyper.skopt  # noqa: F401
+
+
+def _noop(_=None):
+    return os.getpid()
+
+
+def make_pool(workers):
+    """the seeds of a proposal-law case are independent optimizer objects: spread over a few worker processes, started now
+    so that they import the real code while the other cases run"""
+    import concurrent.futures as cf
+    import multiprocessing
+
+    pool = cf.ProcessPoolExecutor(max_workers=workers, mp_context=multiprocessing.get_context("spawn"),
+                                  initializer=_worker_init, initargs=(str(common.REPO),))
+    for _ in range(workers):
+        pool.submit(_noop)
+    return pool
+
+
+def _proposal_rows(job):
+    """worker: for every generator seed a NEW problem / space / optimizer object, the history of initial-phase asks,
+    the first K configurations handed out (rows in the order of problem.hyperparameter_names)"""
+    import warnings
+
+    from deephyper.hpo._problem import convert_to_skopt_space
+    from deephyper.skopt import Optimizer
+
+    warnings.filterwarnings("ignore")
+    pseed, conditional, api, sm, n_points, shape, seeds, K = job
+    make, hps, child = discrete_problem(pseed, conditional)
+    out = []
+    tmp = tempfile.mkdtemp(prefix="c10_")
+    try:
+        for s in seeds:
+            o = Out(lambda: (lambda pb: (pb, list(pb.hyperparameter_names)))(make()))
+            if o.exc is not None:
+                out.append((s, "err", (err_kind(o.exc), repr(o.exc)[:300])))
+                break
+            problem, names = o.val
+
+            def history(ask):
+                rows = []
+                for nreq in shape:
+                    rows.extend(ask(nreq))
+                return rows[:K]
+
+            if api == "Optimizer.ask":
+                def run_one():
+                    sp = convert_to_skopt_space(problem.space, surrogate_model=sm)
+                    opt = Optimizer(sp, base_estimator=sm, n_initial_points=10 ** 9, random_state=s, acq_optimizer_kwargs={"n_points": n_points})
+                    return [list(r) for r in history(lambda nreq: [opt.ask()] if nreq is None else opt.ask(n_points=nreq))]
+            elif api == "CBO.ask":
+                def run_one():
+                    from deephyper.hpo import CBO
+
+                    search = CBO(problem, _zero, random_state=s, log_dir=tmp, surrogate_model=sm, n_points=n_points, verbose=0)
+                    search._setup_optimizer()  # what CBO.search() does first
+                    return [[c[nm] for nm in names] for c in history(lambda nreq: search.ask(nreq or 1))]
+            else:
+                def run_one():
+                    from deephyper.hpo import RandomSearch
+
+                    search = RandomSearch(problem, _zero, random_state=s, log_dir=tmp, verbose=0)
+                    return [[c[nm] for nm in names] for c in history(lambda nreq: search.ask(nreq or 1))]
+            o = Out(run_one)
+            if o.exc is not None:
+                out.append((s, "err", (err_kind(o.exc), repr(o.exc)[:300])))
+                break
+            if len(o.val) < K:
+                out.append((s, "short", o.val))
+                break
+            out.append((s, "ok", o.val))
+    finally:
+        shutil.rmtree(tmp, ignore_errors=True)
+    return out
+
+
+def loose_tag(v, on_cs):
+    """on ConfigSpace's own paths a numeric ordinal value comes back NumPy-coerced (1 -> 1.0): compared numerically there"""
+    t = tag(v)
+    if on_cs and t["t"] in ("i", "f"):
+        return {"t": "num", "v": str(unrat(t["v"]) if t["t"] == "f" else Fraction(t["v"]))}
+    return t
+
+
+def handout_case(ck, d, seed):
+    """ONE optimizer (Optimizer / CBO), a history of initial-phase asks (ask(), ask(n), tells in between): the rows each
+    ask hands out against the model (`askMany`: the first candidates, in DRAWING order, that were not handed out before;
+    the candidates unfiltered when nothing is new or the filter is off), given the candidates the real `Space.rvs` drew"""
+    import random
+
+    from deephyper.hpo._problem import convert_to_skopt_space
+    from deephyper.skopt import Optimizer
+
+    rng = random.Random(seed)
+    kind = rng.choice(["discrete", "discrete", "discrete-conditional", "mixed"])
+    if kind == "mixed":
+        o = Out(lambda: law_problem(random.Random(seed), weighted=True)[0])
+    else:
+        make, hps, child = discrete_problem(seed, kind == "discrete-conditional")
+        o = Out(make)
+    if o.exc is not None:
+        ck.fail("C10|declared-problem|HpProblem|" + kind, "a problem of accepted declarations cannot be built", {"kind": "handout", "seed": seed}, repr(o.exc)[:300])
+        return
+    problem = o.val
+    names = list(problem.hyperparameter_names)
+    on = rng.random() < 0.8
+    explicit = (not on) or rng.random() < 0.5
+    n_points = rng.choice([2, 4, 8, 16, 64])
+    sm = rng.choice(["DUMMY", "RF", "ET", "GP"])
+    api = rng.choice(["Optimizer", "Optimizer", "CBO"])
+    shape = [rng.choice([None, None, 1, 2, 3, 5]) for _ in range(rng.choice([2, 3, 5, 8]))]
+    tells = [rng.random() < 0.25 for _ in shape]
+    case = {"kind": "handout", "seed": seed, "problem": kind, "api": api, "surrogate": sm, "n_points": n_points, "filter_duplicated": on,
+            "asks": shape, "hyperparameters": names}
+    ck.case(case)
+    ck.count("handout:%s:%s:filter=%s" % (api, kind, on))
+    tmp = tempfile.mkdtemp(prefix="c10_")
+    try:
+        with RvsSpy() as spy:
+            if api == "Optimizer":
+                kw = {"n_points": n_points}
+                if explicit:
+                    kw["filter_duplicated"] = on
+                o = Out(lambda: Optimizer(convert_to_skopt_space(problem.space, surrogate_model=sm), base_estimator=sm, n_initial_points=10 ** 9,
+                                          random_state=seed, acq_optimizer_kwargs=kw))
+            else:
+                from deephyper.hpo import CBO
+
+                kw = {"filter_duplicated": on} if explicit else {}
+
+                def build():
+                    search = CBO(problem, _zero, random_state=seed, log_dir=tmp, surrogate_model=sm, n_points=n_points, n_initial_points=10 ** 6, verbose=0, **kw)
+                    search._setup_optimizer()  # what CBO.search() does first
+                    return search
+                o = Out(build)
+            if o.exc is not None:
+                ck.fail(f"C10|raises:{err_kind(o.exc)}|{api}|construct", "the optimizer cannot be built on an accepted problem", case, repr(o.exc)[:300])
+                return
+            obj = o.val
+            spy.take()
+            asks, real = [], []
+            for nreq, tl in zip(shape, tells):
+                if api == "Optimizer":
+                    r = Out(lambda: [obj.ask()] if nreq is None else obj.ask(n_points=nreq))
+                else:
+                    r = Out(lambda: [[c[nm] for nm in names] for c in obj.ask(nreq or 1)])
+                draws = spy.take()
+                if r.exc is not None:
+                    real.append({"err": err_kind(r.exc)})
+                    asks.append({"cands": draws[0] if draws else [], "n": nreq})
+                    break
+                if len(draws) != 1:
+                    ck.mismatch(case, {"what": "an initial-phase ask draws exactly one list of candidates (Space.rvs) in the model", "impl_draws": len(draws)})
+                    return
+                ck.count("handout:candidates-all-seen" if all(any(tagrow(c) == tagrow(x) for x in [y for q in real for y in q.get("rows", [])]) for c in draws[0]) else "handout:some-new")
+                if not isinstance(r.val, list) or not all(isinstance(x, (list, tuple)) for x in r.val):
+                    ck.fail(f"C10|support-by-name|{api}.ask|row-shape", "ask does not return a list of points", case, repr(r.val)[:300])
+                    return
+                asks.append({"cands": draws[0], "n": nreq})
+                real.append({"rows": [list(x) for x in r.val]})
+                if tl and api == "Optimizer" and r.val:
+                    t = Out(lambda: obj.tell(list(r.val[0]), float(rng.random())))
+                    if t.exc is not None:
+                        ck.count("handout:tell-raises:" + err_kind(t.exc))
+                    if spy.take():
+                        ck.mismatch(case, {"what": "tell in the initial phase draws candidates"})
+                        return
+    finally:
+        shutil.rmtree(tmp, ignore_errors=True)
+    rep = d.ask({"op": "handout", "on": on, "sampled": [],
+                 "asks": [{"cands": [tagrow(c) for c in a["cands"]], "n": a["n"]} for a in asks]})
+    model = rep["out"]
+    impl = [{"err": x["err"]} if "err" in x else {"rows": [tagrow(r) for r in x["rows"]]} for x in real]
+    if impl != model:
+        k = next((i for i, (a, b) in enumerate(zip(impl, model)) if a != b), min(len(impl), len(model)))
+        ck.mismatch(case, {"what": "the rows handed out by ask #%d differ from the model (first candidates in drawing order that were not handed out before)" % (k + 1),
+                           "impl": impl[k] if k < len(impl) else None, "model": model[k] if k < len(model) else None,
+                           "candidates": [repr(c) for c in asks[k]["cands"][:12]] if k < len(asks) else None})
+    rows = [r for x in real for r in x.get("rows", [])]
+    if rows:
+        check_points_by_name(ck, case, problem, rows, "Space.rvs:configspace" if problem.space.conditions else "Space.rvs:flat")
+
+
+def tagrow(r):
+    return [tag(v) for v in r]
 
 
 def rvs_history_case(ck, seed):
@@ -1373,7 +1910,11 @@ def run(ck):
                "samplers of generated dimensions (every kind x transform, categorical priors; half of them after 1-3 set_transformer "
                "switches on the same object) under scripted streams; seeded Space.rvs on one object across repeated calls and "
                "set_transformer switches vs fresh objects; "
-               "law problems with every hyperparameter kind x 4 sampling paths x seeds, N samples per path; "
+               "law problems with every hyperparameter kind x 5 sampling paths (incl. CBO.ask) x seeds, N samples per path; "
+               "histories of ask() / ask(n) / tell on one Optimizer / CBO object (all-discrete, conditional, mixed problems; duplicate filter "
+               "default / off; 2..64 candidates) vs the model of the hand-out stage on the observed candidate lists; "
+               "small all-discrete problems (5..24 configurations, all among the candidates) x Optimizer.ask / CBO.ask / RandomSearch.ask x "
+               "hundreds of seeds (one new optimizer object each): law of the 1st, 2nd, 3rd configuration handed out; "
                "non-trivial = at least one accepted declaration / any sampler or law case")
     ck.assumptions = [
         "NumPy / SciPy generators are uniform (the draws are scripted in L2 and judged statistically in L3)",
@@ -1381,10 +1922,21 @@ def run(ck):
         "exp(U[ln lo, ln hi]) quantized into hi-lo+1 equal bins), not against the flat path's",
         "statistical thresholds at p < 1e-9 with fixed seeds: a correct sampler fails with probability < 1e-9 per statistic, deterministically reproducible",
         "ConfigSpace constructor contracts (illegal bounds, duplicates, ordering by name / topological with conditions) are modelled as observed",
+        "across-seeds law of the k-th configuration handed out: successive sampling from the prior restricted to the configurations not handed "
+        "out before (C10_first_proposal_law); the event that the n_points >= 256 candidates contain fewer than 3 new configurations is ignored (< 0.95^256)",
     ]
-    ck.trusted_extra = ["SciPy/NumPy random generators", "ConfigSpace 1.2 constructors and samplers"]
+    ck.trusted_extra = ["SciPy/NumPy random generators", "ConfigSpace 1.2 constructors and samplers", "the Space.rvs observation shim",
+                        "CBO._setup_optimizer() called directly by the harness", "pandas duplicated / merge (row equality)"]
     rng = ck.rng
     n = ck.pick(15000, 60000)
+    pool = make_pool(ck.pick(6, 12))
+    try:
+        _run(ck, rng, n, pool)
+    finally:
+        pool.shutdown(wait=False, cancel_futures=True)
+
+
+def _run(ck, rng, n, pool):
     with ck.driver() as d:
         _DRIVER[0] = d
         _CELLS.clear()
@@ -1407,6 +1959,10 @@ def run(ck):
             law_case(ck, d, rng.randint(0, 2 ** 20), n)
         for _ in range(ck.pick(1, 3)):
             small_calls_case(ck, rng.randint(0, 2 ** 20), ck.pick(300, 800))
+        for _ in range(ck.pick(50, 200)):
+            handout_case(ck, d, rng.randint(0, 2 ** 30))
+        for i in range(ck.pick(2, 4)):
+            proposal_law_case(ck, d, rng.randint(0, 2 ** 30), ck.pick(300, 1000), conditional=i % 2 == 1, pool=pool)
 
 
 def replay(ck, case):
@@ -1421,6 +1977,15 @@ def replay(ck, case):
             njobs_case(ck, case["seed"])
         elif case.get("kind") == "small-calls":
             small_calls_case(ck, case["seed"], case.get("calls", 400))
+        elif case.get("kind") == "handout":
+            handout_case(ck, d, case["seed"])
+        elif case.get("kind") == "proposal-law":
+            pool = make_pool(6)
+            try:
+                proposal_law_case(ck, d, case["seed"], case.get("n_seeds", 400), case.get("conditional", False),
+                                  apis=(case["path"].split(":")[0],) if "path" in case else ("Optimizer.ask", "CBO.ask", "RandomSearch.ask"), pool=pool)
+            finally:
+                pool.shutdown(wait=False, cancel_futures=True)
         elif case.get("kind") == "structure" and "seed" in case:
             structure_case(ck, d, case["seed"])
         elif case.get("kind") == "law" or "hyperparameter" in case:
